@@ -1,0 +1,15 @@
+//go:build verif
+
+package syncer
+
+// VerifYield is called at the points where another process may commit to the
+// LMDB between two of the syncer's own calls into the environment. It is only
+// compiled with the build tag "verif" and only used by /verif to replay
+// schedules found by the verifier; it is nil otherwise.
+var VerifYield func(point string)
+
+func verifYield(point string) {
+	if VerifYield != nil {
+		VerifYield(point)
+	}
+}
